@@ -2,7 +2,7 @@
    memory.rs (impl Memory), parallel_moves.rs (impl ParallelMoves), into_routine.rs.
    Constants come from Generated/Constants.v (regenerated from the compiled crate on every run).
    COMMENT instructions are not produced (the correspondence drops them from the Rust output). *)
-From Coq Require Import List ZArith NArith String Bool.
+From Coq Require Import List ZArith NArith String Ascii Bool.
 From SCC Require Import Base.Sexp Lang.AxSyn Model.ParMoves Model.Backend Generated.Constants.
 Import ListNotations.
 Open Scope string_scope.
@@ -160,8 +160,13 @@ Definition x_arith (o : binop) (t s1 s2 : xtemp) : list xcode :=
   end.
 Definition x_jump (t : xtemp) : list xcode :=
   match t with XR r => [JMP r] | XS p => [MOVL TEMP STACK (stack_offset p); JMP TEMP] end.
+Definition fits_i32 (i : Z) : bool := (Z.leb (- 2147483648) i && Z.leb i 2147483647)%Z.
 Definition x_load_immediate (t : xtemp) (i : Z) : list xcode :=
-  match t with XR r => [MOVI r i] | XS p => [MOVIM STACK (stack_offset p) i] end.
+  match t with
+  | XR r => [MOVI r i]
+  | XS p => if fits_i32 i then [MOVIM STACK (stack_offset p) i]
+            else [MOVI TEMP i; MOVS TEMP STACK (stack_offset p)]
+  end.
 Definition x_load_label (t : xtemp) (l : string) : list xcode :=
   match t with XR r => [LEAL r l] | XS p => [LEAL TEMP l; MOVS TEMP STACK (stack_offset p)] end.
 Definition x_add_and_jump (t : xtemp) (i : Z) : list xcode :=
@@ -461,8 +466,17 @@ Definition x_load (to_load existing : ctx) (lc : N) : res (list xcode * N) :=
       end
   end.
 
-Definition x86_backend : backend xcode xtemp := {|
+(* statement-boundary marker used only by the heap-invariant runner: a label "#m" followed by one
+   character per environment position (e = integer, p = object/closure) *)
+Definition kinds_string (c : ctx) : string :=
+  fold_right (fun b acc => String (match bchi b with Ext => "e"%char | _ => "p"%char end) acc) "" c.
+Definition x86_mark (c : ctx) : list xcode := [LAB ("#m" +++ kinds_string c)].
+Definition is_mark (c : xcode) : bool :=
+  match c with LAB (String "#"%char (String "m"%char _)) => true | _ => false end.
+
+Definition x86_backend_with (mark : ctx -> list xcode) : backend xcode xtemp := {|
   b_label := LAB;
+  b_mark := mark;
   b_jump := x_jump;
   b_jump_label := fun l => [JMPL l];
   b_jump_label_fixed := fun l => [JMPLN l];
@@ -487,6 +501,8 @@ Definition x86_backend : backend xcode xtemp := {|
   b_temporary_from_position := temporary_from_position;
   b_tcompare := xtemp_compare;
 |}.
+Definition x86_backend := x86_backend_with (fun _ => []).
+Definition x86_backend_marked := x86_backend_with x86_mark.
 
 (* ---------- into_routine.rs ---------- *)
 Fixpoint move_arguments (n : nat) : res (list xcode) :=
@@ -510,8 +526,10 @@ Definition into_x86_64_routine (instructions : list xcode) (n : nat) : res (list
   dor s <- setup n;
   Ok (preamble ++ s ++ instructions ++ cleanup).
 
-Definition x86_compile (p : prog) (lc : N) : res (list xcode * nat * N) :=
-  dor c <- compile x86_backend p lc;
+Definition x86_compile_with (B : backend xcode xtemp) (p : prog) (lc : N) : res (list xcode * nat * N) :=
+  dor c <- compile B p lc;
   let '(is, n, lc') := c in
   dor r <- into_x86_64_routine is n;
   Ok (r, n, lc').
+Definition x86_compile := x86_compile_with x86_backend.
+Definition x86_compile_marked := x86_compile_with x86_backend_marked.
